@@ -21,7 +21,9 @@ from ..fakeserial import EBB3Board, Profile
 PROPERTY = "C05"
 MAXLAT = 25
 
-EXCS = ("SerialException", "PortNotOpenError", "SerialTimeoutException", "OSError")
+# the four kinds pyserial raises, and RuntimeError, which the library's own except clauses name
+EXCS = ("SerialException", "PortNotOpenError", "SerialTimeoutException", "OSError",
+        "RuntimeError")
 PRIM_PROFILE = Profile(write_exc=EXCS, read_exc=EXCS, latency=(0, 1, 24, 25, 26),
                        content=("bare", "nocomma", "echo", "commapay", "wrong", "shifted", "err",
                                 "nameerr"), silent=True,
